@@ -32,8 +32,9 @@ Definition to_res (g : gout) : res unit :=
 Definition g_is_panic (g : gout) : bool := match g with GPanic _ => true | _ => false end.
 
 (* sequencing: the first step that does not pass decides *)
-Definition andthen (a : gout) (b : gout) : gout := match a with GPass => b | _ => a end.
-Notation "a >>> b" := (andthen a b) (at level 61, right associativity).
+(* (the continuation is a thunk so that evaluation inside Coq is as lazy as the Go code is) *)
+Definition andthen (a : gout) (b : unit -> gout) : gout := match a with GPass => b tt | _ => a end.
+Notation "a >>> b" := (andthen a (fun _ : unit => b)) (at level 61, right associativity).
 
 (* a test that exists in the repaired code only *)
 Definition guard (v : variant) (bad : bool) (stage : N) : gout :=
@@ -204,7 +205,7 @@ Record e3_in := {
 }.
 
 (* base58.Decode indexes a 256-entry table with the runes of its input *)
-Definition b58_decode (ascii : bool) (site : N) (k : gout) : gout := if ascii then k else GPanic site.
+Definition b58_decode (ascii : bool) (site : N) : gout := if ascii then GPass else GPanic site.
 (* chacha20poly1305.Open panics on a nonce that is not 12 bytes long *)
 Definition aead_open (nonce_len : N) (site : N) : gout := if nonce_len =? 12 then GPass else GPanic site.
 
@@ -213,7 +214,7 @@ Fixpoint find_ver_key (v : variant) (l : list (bool * bool)) : gout :=
   | [] => GRej 0                                  (* none of the recipient keys were found in kms *)
   | (ascii, owned) :: r =>
       guard v (negb ascii) 31 >>>
-      b58_decode ascii 31 (if owned then GPass else find_ver_key v r)
+      b58_decode ascii 31 >>> (if owned then GPass else find_ver_key v r)
   end.
 
 Definition E3 (v : variant) (i : e3_in) : gout :=
@@ -221,7 +222,7 @@ Definition E3 (v : variant) (i : e3_in) : gout :=
   check (negb (e3_typ_ok i)) 32 >>>
   check (negb (e3_alg_ok i)) 33 >>>
   find_ver_key v (e3_kids i) >>>
-  guard v (negb (e3_sender_ascii i)) 34 >>> b58_decode (e3_sender_ascii i) 34 GPass >>>
+  guard v (negb (e3_sender_ascii i)) 34 >>> b58_decode (e3_sender_ascii i) 34 >>>
   lib (e3_cek_ok i) >>>
   lib (e3_fields_ok i) >>>
   guard v (negb (e3_iv_len i =? 12)) 17 >>> aead_open (e3_iv_len i) 17.
@@ -367,7 +368,7 @@ Record e6_in := {
 Definition pubkey_from_fingerprint (v : variant) (i : e6_in) (k : N -> list N -> gout) : gout :=
   check (negb (e6_z i)) 61 >>>
   guard v (negb (e6_ascii i)) 61 >>>
-  b58_decode (e6_ascii i) 62 (
+  b58_decode (e6_ascii i) 62 >>> (
     let mc := e6_bytes i in
     let code := fst (uvarint mc) in
     let br := snd (uvarint mc) in
